@@ -579,6 +579,7 @@ struct Mgr {
         if (auto *e = std::get_if<Err>(&r)) {
             if (e->first == QStringLiteral("Could not respond to SASL challenge") && e->second.type == QXmpp::AuthenticationError::ProcessingError) result = "cannot-respond";
             else if (e->second.type == QXmpp::AuthenticationError::RequiredTasks) result = "required-tasks";
+            else if (e->first == QStringLiteral("Server did not prove knowledge of the password") && e->second.type == QXmpp::AuthenticationError::ProcessingError) result = "not-proved";
             else if (e->first.startsWith(QStringLiteral("Authentication failed: "))) result = "auth-failed";
             else result = "err:" + e->first.toStdString();
         } else result = "success";
@@ -828,7 +829,7 @@ int main(int argc, char **argv)
         scramHonest(k, true);                                        // RFC 5802 §5
         ScramCase k2 { { "SCRAM-SHA-256", "user", "pencil", "rOprNGfwEbeRWgbNEkqO", "", "" }, "%hvYDpWUa2RaTCAfuxFIlj)hNlF$k0", BA::fromBase64("W22ZaJ0SNY7soEsUEjb6gQ=="), 4096 };
         scramHonest(k2, true);                                       // RFC 7677 §3
-        for (const char *u : { "a,b", "a=b", ",", "=2C", "x=3Dy," }) {   // RFC 5802 §5.1: ',' and '=' must travel as =2C / =3D
+        for (const char *u : { "a,b", "a=b", ",", "=2C", "x=3Dy," }) {   // RFC 5802 §5.1: ',' and '=' must travel as =2C / =3D (witnesses of the finding fixed in 43097ab)
             ScramCase k3 = k; k3.cfg.user = u; k3.iters = 2;
             scramHonest(k3, false);
         }
@@ -858,6 +859,7 @@ int main(int argc, char **argv)
             if (!alg.scram) continue;
             ScramCase k;
             k.cfg = randCfg(rng, alg.scram);
+            if (rng.below(4) == 0) { k.cfg.user = randText(rng, 1, 8, ""); int at; do at = int(rng.below(uint32_t(k.cfg.user.size() + 1))); while (at < k.cfg.user.size() && (uchar(k.cfg.user.at(at)) & 0xC0) == 0x80); k.cfg.user.insert(at, rng.coin() ? ',' : '='); }
             k.snonce = randNonce(rng, 1, 24);
             k.salt = randBytes(rng, 1, 32);
             uint32_t pick = rng.below(100);
@@ -882,8 +884,8 @@ int main(int argc, char **argv)
         k.realm = rng.below(3) == 0 ? BA() : (rng.coin() ? randText(rng, 1, 8, "") : randValue(rng, false));
         while (k.realm.endsWith('\\')) k.realm.chop(1);
         k.nonce = rng.coin() ? randNonce(rng, 1, 24) : randValue(rng, false) + "n";
-        while (k.nonce.endsWith('\\')) k.nonce.chop(1);      // trailing backslashes: corpus cases only (known finding)
         if (k.nonce.isEmpty()) k.nonce = "n";
+        if (rng.below(5) == 0) { if (rng.coin()) k.realm += '\\'; else k.nonce += '\\'; }   // fixed in aca51c7; a failure keeps the old key
         if (i < 2) sample("digest " + k.cfg.describe() + " realm=" + printable(k.realm) + " nonce=" + printable(k.nonce));
         digestHonest(k, rng.coin() ? "auth" : "auth,auth-int");
         if (i % 5 == 0) digestMalformed(k);
@@ -944,7 +946,7 @@ int main(int argc, char **argv)
         for (int i = 0; i < nRt; i++) {
             QMap<BA, BA> m;
             int n = 1 + int(rng.below(4));
-            bool allowTrailing = rng.below(10) == 0;
+            bool allowTrailing = rng.below(3) == 0;
             for (int j = 0; j < n; j++) m[randToken(rng, 1, 6)] = randValue(rng, allowTrailing);
             if (i < 1) sample("roundtrip " + mapStr(m));
             roundTrip(m);
